@@ -494,7 +494,7 @@ func ruleRegister(c *Ctx) []Obligation {
 	if !okStd {
 		o.undecided(fn, "standard-library table", reg.Pos(), "anchor lost")
 	}
-	e := &regEval{c: c, a: a, fn: reg, valid: c.method("File", "isValidAlias"), guess: c.jenFunc("guessAlias"), isLocal: c.method("File", "isLocal"), stdTable: stdName}
+	e := &regEval{c: c, a: a, fn: reg, valid: c.role("isValidAlias"), guess: c.role("guessAlias"), isLocal: c.role("isLocal"), stdTable: stdName}
 	if e.valid == nil || e.guess == nil || e.isLocal == nil {
 		o.undecided(fn, "helpers", reg.Pos(), "anchor lost: isValidAlias / guessAlias / isLocal")
 		return o.list
@@ -702,7 +702,7 @@ func ruleRegister(c *Ctx) []Obligation {
 
 func ruleValidAlias(c *Ctx) []Obligation {
 	o := c.newObs("P-VALIDALIAS")
-	f := c.method("File", "isValidAlias")
+	f := c.role("isValidAlias")
 	if f == nil {
 		o.undecided("(*jen.File).isValidAlias", "anchor", token.NoPos, "anchor lost")
 		return o.list
@@ -807,7 +807,7 @@ func ruleValidAlias(c *Ctx) []Obligation {
 
 func ruleLocalDot(c *Ctx) []Obligation {
 	o := c.newObs("P-LOCALDOT")
-	if f := c.method("File", "isLocal"); f != nil {
+	if f := c.role("isLocal"); f != nil {
 		a := c.FA(f)
 		rs := a.returns()
 		ok := len(rs) == 1 && len(f.Blocks) == 1
@@ -820,7 +820,7 @@ func ruleLocalDot(c *Ctx) []Obligation {
 	} else {
 		o.undecided("(*jen.File).isLocal", "anchor", token.NoPos, "anchor lost")
 	}
-	if f := c.method("File", "isDotImport"); f != nil {
+	if f := c.role("isDotImport"); f != nil {
 		a := c.FA(f)
 		fn := fname(f)
 		for _, r := range a.returns() {
